@@ -174,24 +174,56 @@ def run(ctx: Any, prog: Program) -> None:
     # the tables are what the module leaves behind, not only what their defining expression says: later module-level stores
     # (`ESCAPES_INV[k] = v`, `.update({...})`, `del`) are applied in order; anything else that touches them is not modelled
     ESC, INV = dict(ESC), dict(INV)
-    for st in tk.tree.body:
+    def touches_tables(node: ast.AST) -> bool:
+        return any(isinstance(x, ast.Name) and x.id in ('ESCAPES', 'ESCAPES_INV') and (isinstance(x.ctx, (ast.Store, ast.Del)) or isinstance(tk.parents.get(x), (ast.Subscript, ast.Attribute)) and (
+            isinstance(getattr(tk.parents.get(x), 'ctx', None), (ast.Store, ast.Del)) or (isinstance(tk.parents.get(x), ast.Attribute) and tk.parents.get(x).attr in ('update', 'pop', 'setdefault', 'clear', 'popitem', '__setitem__', '__delitem__')))) for x in ast.walk(node))
+
+    def apply_stmt(st: ast.stmt, env: Dict[str, Any]) -> None:
+        tables_env = lambda: dict(env, ESCAPES=dict(ESC), ESCAPES_INV=dict(INV))       # noqa: E731
         for tbl_name, tbl in (('ESCAPES', ESC), ('ESCAPES_INV', INV)):
             if isinstance(st, ast.Assign) and len(st.targets) == 1 and isinstance(st.targets[0], ast.Subscript) and dotted(st.targets[0].value) == tbl_name:
                 try:
-                    tbl[fold.fold(st.targets[0].slice, {})] = fold.fold(st.value, {tbl_name: dict(tbl), 'ESCAPES': dict(ESC), 'ESCAPES_INV': dict(INV)})
+                    tbl[fold.fold(st.targets[0].slice, tables_env())] = fold.fold(st.value, tables_env())
                 except Exception as exc:          # FoldError or a KeyError inside the folded expression
                     raise AnalysisError(f'module-level store `{U(st)[:60]}` into {tbl_name} could not be folded: {exc}')
-            elif isinstance(st, ast.Expr) and isinstance(st.value, ast.Call) and isinstance(st.value.func, ast.Attribute) and dotted(st.value.func.value) == tbl_name:
+                return
+            if isinstance(st, ast.Expr) and isinstance(st.value, ast.Call) and isinstance(st.value.func, ast.Attribute) and dotted(st.value.func.value) == tbl_name:
                 if st.value.func.attr == 'update' and len(st.value.args) == 1 and not st.value.keywords:
                     try:
-                        tbl.update(fold.fold(st.value.args[0], {}))
+                        tbl.update(fold.fold(st.value.args[0], tables_env()))
                     except Exception as exc:
                         raise AnalysisError(f'`{U(st)[:60]}` could not be folded: {exc}')
                 else:
                     raise AnalysisError(f'module-level `{U(st)[:60]}` changes {tbl_name} in a way that is not modelled')
-            elif isinstance(st, ast.Delete) and any(isinstance(t, ast.Subscript) and dotted(t.value) == tbl_name for t in st.targets):
+                return
+            if isinstance(st, ast.Delete) and any(isinstance(t, ast.Subscript) and dotted(t.value) == tbl_name for t in st.targets):
                 for t in st.targets:
-                    tbl.pop(fold.fold(t.slice, {}), None)       # type: ignore[attr-defined]
+                    tbl.pop(fold.fold(t.slice, tables_env()), None)       # type: ignore[attr-defined]
+                return
+        if isinstance(st, ast.For) and touches_tables(st):
+            # `for c in <constant iterable>: ESCAPES_INV[c] = ...`: unrolled
+            if not isinstance(st.target, ast.Name) or st.orelse:
+                raise AnalysisError(f'module-level loop `{U(st)[:60]}` changes the escape tables in a way that is not modelled')
+            try:
+                items = list(fold.fold(st.iter, tables_env()))
+            except Exception as exc:
+                raise AnalysisError(f'module-level loop over `{U(st.iter)[:40]}` changes the escape tables and its iterable could not be folded: {exc}')
+            for it in items:
+                for b_ in st.body:
+                    apply_stmt(b_, dict(env, **{st.target.id: it}))
+            return
+        if isinstance(st, ast.If) and touches_tables(st):
+            try:
+                cond = bool(fold.fold(st.test, tables_env()))
+            except Exception as exc:
+                raise AnalysisError(f'module-level `if {U(st.test)[:40]}` guards a change of the escape tables and could not be folded: {exc}')
+            for b_ in (st.body if cond else st.orelse):
+                apply_stmt(b_, env)
+            return
+        if not isinstance(st, (ast.Assign, ast.AnnAssign, ast.FunctionDef, ast.ClassDef, ast.AsyncFunctionDef)) and touches_tables(st):
+            raise AnalysisError(f'module-level `{U(st)[:60]}` changes the escape tables in a way that is not modelled')
+    for st in tk.tree.body:
+        apply_stmt(st, {})
 
     # ---- T1 ------------------------------------------------------------------------------------
     for sym, ch in ESC.items():
@@ -599,6 +631,7 @@ def run(ctx: Any, prog: Program) -> None:
 
 
 MUTANTS = [
+    {'id': 'inv_table_extra_line_breaks_by_loop', 'file': 'tokenizer.py', 'find': "ESCAPE_RE = re.compile('|'.join(", 'replace': "for _char in '\\x85\\u2028':\n    ESCAPES_INV[_char] = ESCAPES_INV['\\n']\ndel _char\nESCAPE_RE = re.compile('|'.join(", 'expect': 'C02.T1'},
     {'id': 'handler_tests_shared_cr_flag', 'file': 'tokenizer.py', 'find': "                if last_was_cr:\n                    last_was_cr = False\n                    continue\n                self.line_num += 1\n            else:\n                last_was_cr = False\n\n            if next_char == '\\\\' and self.allow_escapes:\n                # Escape text\n                escape = self._next_char()", 'replace': "                if last_was_cr or self._last_was_cr:\n                    last_was_cr = self._last_was_cr = False\n                    continue\n                self.line_num += 1\n            else:\n                last_was_cr = False\n\n            if next_char == '\\\\' and self.allow_escapes:\n                # Escape text\n                escape = self._next_char()", 'expect': 'C02.T9'},
     {'id': 'next_char_filters_bom', 'file': 'tokenizer.py', 'find': "                        self._char_index = 0\n                        return chunk[0]\n", 'replace': "                        self._char_index = 0\n                        if chunk[0] == '\\uFEFF' and self.line_num == 1:\n                            return self._next_char()\n                        return chunk[0]\n", 'expect': 'C02.T8'},
     {'id': 'ok_next_char_via_local', 'file': 'tokenizer.py', 'find': "                        self._char_index = 0\n                        return chunk[0]\n", 'replace': "                        self._char_index = 0\n                        first = chunk[0]\n                        return first\n", 'expect': None},
